@@ -113,11 +113,16 @@ impl Outcome {
         }
     }
     pub fn is_eof_err(&self) -> bool {
-        matches!(self, Outcome::Err(e) if e.contains("UnexpectedEof"))
+        matches!(self, Outcome::Err(e) if e == "EndOfData")
     }
 }
 
+/// Error values as strings.  End-of-data is recognised through the library's own
+/// public predicate (`Error::is_eof_error`), not through its representation.
 pub fn err_string(e: &h263_rs::Error) -> String {
+    if e.is_eof_error() {
+        return "EndOfData".into();
+    }
     match e {
         h263_rs::Error::UnhandledIoError(io) => format!("Io({:?})", io.kind()),
         other => format!("{other:?}"),
